@@ -16,6 +16,35 @@ from fractions import Fraction
 
 from .common import hexs, unhexs
 
+def _default_text_encoding():
+    """the encoding `open(path, 'w')` / `open(path)` use in THIS interpreter (GroFile opens its files in text
+    mode without an `encoding=` argument): locale dependent, UTF-8 in UTF-8 mode"""
+    import codecs
+    with open(os.devnull, "w") as f:
+        enc = f.encoding
+    return codecs.lookup(enc).name
+
+
+TEXT_ENCODING = _default_text_encoding()
+# encodings for which the byte-list file model is exact: stateless, '\n' is the single byte 0x0A and never part
+# of a multi-byte sequence, so `tell()` cookies are plain byte offsets and `readline` splits at byte 0x0A
+BYTE_MODELLED_ENCODING = (TEXT_ENCODING in ("utf-8", "ascii") or TEXT_ENCODING.startswith("iso8859")
+                          or TEXT_ENCODING.startswith("cp125"))
+
+
+def text_bytes(s: str) -> bytes:
+    """what the text layer writes to the file for `s`"""
+    return s.encode(TEXT_ENCODING)
+
+
+def encodable(s: str) -> bool:
+    try:
+        s.encode(TEXT_ENCODING)
+        return True
+    except UnicodeEncodeError:
+        return False
+
+
 BOUNDARY_NUMBERS = [0, 1, 9, 10, 99, 9999, 10000, 99998, 99999, 100000, 100001, 10 ** 5 - 1, 199998, 199999,
                     200000, 10 ** 6 - 1, 10 ** 6, 10 ** 6 + 1, 10 ** 7 - 1, 10 ** 7]
 NAME_CHARS = "ABCDEFGHIJKLMNOPQRSTUVWXYZabcdefghijklmnopqrstuvwxyz0123456789+-*'#_.()[]"
@@ -47,7 +76,7 @@ def rec_tokens(r) -> str:
 def op_tokens(op) -> str:
     k = op[0]
     if k == "c":
-        return "c " + hexs(op[1])
+        return "c " + hexs(text_bytes(op[1]))      # the model works on the ENCODED title (byte offsets)
     if k == "b3":
         return "b3 " + " ".join(dy(v) for v in op[1])
     if k == "b9":
@@ -270,17 +299,34 @@ def gen_box(rng):
     return ["b9", m]
 
 
-def gen_title(rng):
+NONASCII_TITLES = ["Membrana lip\u00eddica en agua, 310 K", "\u00c5", "50 \u00c5 patch (\u03b1 phase) \u2014 DPPC",
+                   "\u819c\u6a21\u62df", "\u6c34", "na\u00efve caf\u00e9 \u00b5s", "\u00a0nbsp\u00a0", "x\U0001f9ea",
+                   "\u0394G = -12.5 kJ/mol \u00b1 0.3", "\u00e9"]
+NONASCII_CHARS = "\u00e9\u00ed\u00c5\u00f1\u00fc\u00b5\u00df\u00a0\u03b1\u0394\u2014\u6c34\u819c\U0001f9ea\u0416"
+
+
+def gen_title(rng, nonascii=False):
     if rng.random() < 0.06:
         return rng.choice(["", "\n"])         # the empty title (one empty line in the file)
     n = rng.choice([1, 3, 10, 30, 80])
     t = "".join(rng.choice(TITLE_CHARS) for _ in range(rng.randint(1, n)))
+    if nonascii and rng.random() < 0.35:
+        # characters that take 2, 3 and 4 bytes in UTF-8: character counts and byte offsets differ
+        if rng.random() < 0.4:
+            t = rng.choice(NONASCII_TITLES)
+        else:
+            t = list(t)
+            for _ in range(rng.randint(1, 4)):
+                t.insert(rng.randint(0, len(t)), rng.choice(NONASCII_CHARS))
+            t = "".join(t)
+        if not encodable(t):                   # a locale whose encoding cannot write it: keep the title ASCII
+            t = t.encode("ascii", "replace").decode("ascii")
     if rng.random() < 0.1:
         t = t + "\n"
     return t
 
 
-def gen_valid_session(rng, nrec=None, max_rec=300, boundary=False, small_numbers=False):
+def gen_valid_session(rng, nrec=None, max_rec=300, boundary=False, small_numbers=False, nonascii_titles=False):
     """a session in the property's quantifier: optional setters, >= 1 record with consistent
     velocity presence, close"""
     if nrec is None:
@@ -294,7 +340,7 @@ def gen_valid_session(rng, nrec=None, max_rec=300, boundary=False, small_numbers
         setters.append(["f", fmt[0], fmt[1]])
     w, d = fmt if fmt else (8, 3)
     if rng.random() < 0.6:
-        setters.append(["c", gen_title(rng)])
+        setters.append(["c", gen_title(rng, nonascii=nonascii_titles)])
     if rng.random() < 0.7:
         setters.append(gen_box(rng))
     declared = rng.random() < 0.5
@@ -470,8 +516,11 @@ def write_file(path, data: bytes):
 
 
 def modelled_text(data: bytes) -> bool:
-    """the byte-list file model covers ASCII text without '\\r' (universal newlines are not modelled)"""
-    return all(b < 128 and b != 13 for b in data)
+    """the byte-list file model covers text without '\\r' (universal newlines are not modelled); bytes >= 128
+    (encoded non-ASCII title characters) are covered when the interpreter's encoding is byte-modelled"""
+    if 13 in data:
+        return False
+    return BYTE_MODELLED_ENCODING or all(b < 128 for b in data)
 
 
 def parse_read_response(status, toks):
@@ -498,7 +547,12 @@ def compare_read(impl: dict, model: dict):
     """None when equal, else a short description"""
     if ("open_err" in impl) or ("open_err" in model):
         return None if impl.get("open_err") == model.get("open_err") else "open error"
-    for k in ("title", "natoms", "init", "size", "fmt", "vel"):
+    try:        # the model's title is the raw (encoded) first line
+        if text_bytes(impl["title"]).decode("latin-1") != model["title"]:
+            return "title"
+    except UnicodeEncodeError:
+        return "title"
+    for k in ("natoms", "init", "size", "fmt", "vel"):
         if impl[k] != model[k]:
             return k
     if not all(same_float(a, b) for a, b in zip(impl["box"], model["box"])):
